@@ -7,6 +7,7 @@ package mc
 
 import (
 	"fmt"
+	"math"
 	"net"
 	"strings"
 	"testing"
@@ -30,6 +31,7 @@ type c19Case struct {
 	SendErr    string   `json:",omitempty"` // answer of the transport to the direct ping: "" (sent), "local" (plain error), "remote" (udp write error)
 	HelperVers []uint8  `json:",omitempty"` // per-helper protocol maximum (mixed clusters); overrides HelperPMax
 	IntervalMs int      `json:",omitempty"` // ProbeInterval override in ms (default 1000); below the 300 ms ProbeTimeout the pending record expires before the direct wait ends
+	SeqStart   uint32   `json:",omitempty"` // non-zero: the sequence counter is preset to this value before the probe (wrap-around at 2^32)
 	PriorSusp  bool     `json:",omitempty"` // x is already suspected when the probe starts (the ping travels in a compound with the suspect message)
 }
 
@@ -60,6 +62,9 @@ func (c c19Case) String() string {
 	}
 	if c.PriorSusp {
 		se += " target-already-suspected"
+	}
+	if c.SeqStart != 0 {
+		se += fmt.Sprintf(" sequence-counter=%d", c.SeqStart)
 	}
 	return fmt.Sprintf("indirect=%d pmax=%d score=%d direct=%s helpers=%v tcp=%s%s", c.Indirect, c.HelperPMax, c.Score, c.Direct, c.Helpers, c.TCP, se)
 }
@@ -156,6 +161,10 @@ func c19RunProbe(t *testing.T, c c19Case) (sig, msg string) {
 		interval := c.pi() * time.Duration(c.Score+1)
 		// TCP fallback server
 		var pingSeq uint32
+		pingFound := false
+		if c.SeqStart != 0 {
+			o.M.VSetSeqNo(c.SeqStart)
+		}
 		o.T.OnDial = func(a ml.Address, d time.Duration) (net.Conn, error) {
 			if c.TCP == "refused" {
 				return nil, &net.OpError{Op: "dial", Net: "tcp", Err: fmt.Errorf("refused")}
@@ -199,7 +208,7 @@ func c19RunProbe(t *testing.T, c c19Case) (sig, msg string) {
 				for _, l := range leaves {
 					var pg ml.VPing
 					if l[0] == ml.VPingMsg && ml.VDecode(l[1:], &pg) == nil && pg.Node == "x" {
-						pingSeq = pg.SeqNo
+						pingSeq, pingFound = pg.SeqNo, true
 					}
 				}
 				if c.SendErr == "remote" {
@@ -227,7 +236,7 @@ func c19RunProbe(t *testing.T, c c19Case) (sig, msg string) {
 				return
 			}
 			switch x := findRec(s, "x"); {
-			case pingSeq == 0:
+			case !pingFound:
 				sig, msg = "no-ping-sent", c.String()
 			case s.AckHandlers != 0:
 				sig, msg = "pending-probe-record-leaked", fmt.Sprintf("%v: %d pending records one microsecond after the deadline", c, s.AckHandlers)
@@ -254,12 +263,16 @@ func c19RunProbe(t *testing.T, c c19Case) (sig, msg string) {
 			for _, l := range leaves {
 				var pg ml.VPing
 				if l[0] == ml.VPingMsg && ml.VDecode(l[1:], &pg) == nil && pg.Node == "x" {
-					pingSeq = pg.SeqNo
+					pingSeq, pingFound = pg.SeqNo, true
 				}
 			}
 		}
-		if pingSeq == 0 {
+		if !pingFound {
 			sig, msg = "no-ping-sent", c.String()
+			return
+		}
+		if c.SeqStart != 0 && pingSeq != c.SeqStart+1 {
+			sig, msg = "sequence-number-not-next", fmt.Sprintf("%v: the probe carries number %d", c, pingSeq)
 			return
 		}
 		ack := func(seq uint32) []byte {
@@ -908,6 +921,17 @@ func TestC19(t *testing.T) {
 				run(c19Case{Indirect: 0, HelperPMax: 5, Score: sc, Direct: d, TCP: tc, IntervalMs: 120})
 				for _, h := range []string{"silent", "ack@i-", "ack@i+"} {
 					run(c19Case{Indirect: 1, HelperPMax: 5, Score: sc, Direct: d, Helpers: []string{h}, TCP: tc, IntervalMs: 120})
+				}
+			}
+		}
+	}
+	// the sequence counter crosses 2^32: the numbers 2^32-1, 0 and 1 are numbers like any other
+	for _, st := range []uint32{math.MaxUint32 - 1, math.MaxUint32, 1<<31 - 1} {
+		for _, d := range []string{"none", "own@1", "own@pt+", "stale@1", "foreign@1", "own@i+"} {
+			for _, tc := range []string{"disabled", "ackown", "ackwrong"} {
+				run(c19Case{Indirect: 0, HelperPMax: 5, Score: 0, Direct: d, TCP: tc, SeqStart: st})
+				for _, h := range []string{"nack", "ack@i-", "nackforeign"} {
+					run(c19Case{Indirect: 1, HelperPMax: 5, Score: 0, Direct: d, Helpers: []string{h}, TCP: tc, SeqStart: st})
 				}
 			}
 		}
